@@ -163,13 +163,20 @@ class WatermarkPoolSink(PoolSink):
     Args:
       sink - An open sink.
     """
-    sink_stack, msg, stream, headers = self._waiters.popleft()
-    self._varz.queue_size(len(self._waiters))
-    # The stack has a QueuingChannelSink on the top now, pop it off
-    # and push the real stack back on.
-    orig_sink, ctx = sink_stack.Pop()
-    sink_stack.Push(orig_sink, sink)
-    sink.AsyncProcessRequest(sink_stack, msg, stream, headers)
+    while self._waiters:
+      sink_stack, msg, stream, headers = self._waiters.popleft()
+      self._varz.queue_size(len(self._waiters))
+      if not sink_stack.Any():
+        # The waiter already completed (it timed out while queued), skip it.
+        continue
+      # The stack has a QueuingChannelSink on the top now, pop it off
+      # and push the real stack back on.
+      orig_sink, ctx = sink_stack.Pop()
+      sink_stack.Push(orig_sink, sink)
+      sink.AsyncProcessRequest(sink_stack, msg, stream, headers)
+      return
+    # Nobody is waiting anymore, return the sink to the pool.
+    self._Release(sink)
 
   def Open(self):
     ar = AsyncResult()
